@@ -124,6 +124,12 @@ chk("C08", "sites+enum",
     "gc/amd64 layout model cross-checked with reflect; one open known finding (CollectionPage -> OrderedCollectionPage) is masked at its two keys.",
     "DESIGN.md §3 C08")
 
+chk("C12", "sched+enum+race",
+    "stateless preemption-bounded DFS over goroutine interleavings of the real (instrumented) code under a cooperative scheduler; plus exhaustive sequential non-interference enumeration with deep snapshots; plus a free-running race-detector pass as side condition",
+    "Every schedule with <= 2 preemptions (3-thread scenarios: <= 1 quick, <= 2 thorough; S1-S3 <= 3 thorough) of 8 scenarios over the yield points of an instrumented copy of the library generated from the current tree; each execution compared with the sequential results and the deep snapshot of the shared values and all package-level variables; every read-only operation x every universe value with deep snapshots before/after and result stability; the same scenario bodies under -race.",
+    "Yield points at function-entry/loop granularity of the library only (third-party code not instrumented); the race pass is a dynamic monitor, not exhaustive; scenario values are small so that the schedule space closes.",
+    "DESIGN.md §3 C12")
+
 manifest = {
     "version": 1,
     "setup_cmd": "./setup.sh",
@@ -135,7 +141,11 @@ manifest = {
         "add_only": True,
     },
     "engines": [
-        {"name": "enum", "path": "internal/engine", "serves_properties": sorted(checks), "kind_free_text": "process-sharded bounded-exhaustive enumerator executing every case on the real library; crash isolation, 5x reproduction, finding keys, known-findings"},
+        {"name": "enum", "path": "internal/engine", "serves_properties": sorted(checks), "kind_free_text": "process-sharded bounded-exhaustive enumerator executing every case on the real library; crash isolation, 5x reproduction, finding keys, known-findings; value universe (internal/universe) and reflection canon (internal/canon) as shared alphabet and oracle"},
+        {"name": "hist", "path": "checks/c10.go checks/c13.go checks/c19.go", "serves_properties": ["C10", "C13", "C19"], "kind_free_text": "explicit-state exploration of operation histories, every history replayed on a fresh real object in lock-step with a reference model"},
+        {"name": "sched", "path": "checks/c12_sched.go internal/instr internal/scen internal/snap", "serves_properties": ["C12"], "kind_free_text": "cooperative scheduler + iterative preemption-bounded DFS over yield points of an AST-instrumented copy of the library (go build -overlay), deep snapshots, race-detector side pass (cmd/verif-race)"},
+        {"name": "sites", "path": "internal/sites", "serves_properties": ["C08"], "kind_free_text": "offline go/types check of /repo and enumeration of all unsafe pointer conversion sites x fields"},
+        {"name": "bytes", "path": "checks/c04.go", "serves_properties": ["C04"], "kind_free_text": "deviation-bounded exploration of decoder inputs (truncations, token/byte deviations) in crash-isolated workers"},
     ],
     "checks": [checks[k] for k in sorted(checks)],
     "notes": "All checks rebuild against /repo's working tree (go.mod replace => /repo). VERIF_SEED is recorded and ignored: enumerations are deterministic and exhaustive within the stated bounds.",
